@@ -352,6 +352,18 @@ class Run:
         self.cov["spec_built_images"] = self.cov.get("spec_built_images", 0) + len(reports)
         return out
 
+    def format_theorems(self, nvalues):
+        """C01/C08/C11 as theorems of the pinned format, checked by TLC on sample values of all 170 types"""
+        vd = self.build()
+        vals = os.path.join(self.scratch, "thm-values-%d.ndjson" % self.seed)
+        p = subprocess.run([vd, "values", "-seed", str(self.seed + 13), "-n", str(nvalues), "-out", vals], capture_output=True, text=True,
+                           env=dict(os.environ, VERIF_SCHEMA=SCHEMA))
+        if p.returncode != 0:
+            raise Broken("values failed: %s" % p.stderr[-2000:])
+        return self.model("Images.tla", "Images_theorems.cfg", env={"VERIF_VALUES": vals},
+                          note="theorems of the format on %d value(s) per type x 4 text cuts: SelfDecodes, RoundTrips (C01), PrefixFree (C11, every cut of every image <= 260 bytes), "
+                               "ReencodeSmall (C08, all 87,381 strings <= 8 bytes over 4 symbols for sample.SubPacket)" % nvalues)
+
     def child_trace(self, hist_path, label, shards=None, vmem_kb=1572864):
         """run histories in child processes under ulimit -v; an aborted or hung child becomes an event"""
         vd = self.build()
